@@ -215,6 +215,14 @@ func Groups(opts []cat.Opts, cb bool) []*cat.Catalog {
 			"d2": dec("a", []cat.Param{par("T2@g", "grp", 1)}, cat.Result{Ks: []string{"T2@g"}, M: "grp", N: 2, O: 1}),
 		}
 	})
+	// an inner decorator of the group and of a single key at once: it may be started through
+	// either key and must be handed the outer decorator's slice both times
+	decVariants = append(decVariants, func() map[string]*cat.Fn {
+		return map[string]*cat.Fn{
+			"d1": dec("r", []cat.Param{par("T2@g", "grp", 1)}, cat.Result{Ks: []string{"T2@g"}, M: "grp", N: 1, O: 1}),
+			"d2": dec("a", []cat.Param{par("T2@g", "grp", 1), par("T3", "req", 1)}, cat.Result{Ks: []string{"T2@g"}, M: "grp", N: 2, O: 1}, cat.Result{Ks: []string{"T3"}, M: "one", O: 1}),
+		}
+	})
 	for _, p1 := range places() {
 		for pi2, p2 := range places() {
 			for _, gm := range []string{"grp", "soft"} {
